@@ -55,16 +55,29 @@ def func_work(item):
     tables, qs = item
     import aioftp
     part = report.Partial()
-    for table in tables:
-        user = aioftp.User(permissions=[aioftp.Permission(p, readable=r, writable=w) for p, r, w in table])
-        for q in qs:
-            perm = call(user.get_permissions(q))
-            got = (perm.readable, perm.writable)
-            part.evaluations += 1
-            if got not in oracle(table, q):
-                part.violation({"kind": "nearest-ancestor", "entries": len(table)},
-                               {"table": table, "query": q, "got": got, "expected": sorted(oracle(table, q))},
-                               replay={"func": True, "table": [list(e) for e in table], "query": q})
+    for n_table, table in enumerate(tables):
+        mk = lambda e: aioftp.Permission(e[0], readable=e[1], writable=e[2])     # noqa
+        built = [("constructor", aioftp.User(permissions=[mk(e) for e in table]))]
+        if len(table) >= 2 and n_table % 7 == 0:
+            # the permission list is a public attribute: the same table, grown in place on an existing user (an entry
+            # granted or locked while the server runs) - what counts is the table as it is when the request comes
+            u2 = aioftp.User(permissions=[mk(table[0])])
+            for e in table[1:]:
+                u2.permissions.append(mk(e))
+            built.append(("appended", u2))
+            u3 = aioftp.User(permissions=[mk(table[-1])])
+            for e in reversed(table[:-1]):
+                u3.permissions.insert(0, mk(e))
+            built.append(("inserted", u3))
+        for how, user in built:
+            for q in qs:
+                perm = call(user.get_permissions(q))
+                got = (perm.readable, perm.writable)
+                part.evaluations += 1
+                if got not in oracle(table, q):
+                    part.violation({"kind": "nearest-ancestor", "entries": len(table), "table_built_by": how},
+                                   {"table": table, "query": q, "got": got, "expected": sorted(oracle(table, q))},
+                                   replay={"func": True, "table": [list(e) for e in table], "query": q, "how": how})
         if len(table) >= 2:
             part.nontrivial.add(report.fp(table))
         part.states.add(report.fp(table))
